@@ -112,7 +112,12 @@ class World:
                         net.docs["http://h/root.css"] = {"raw_hex": data.hex(), "enc": "x", "http": None}
                     obj = parser.parseUrl("http://h/root.css")
                 elif entry == "global":
-                    obj = cu.parseString(data, href="http://h/root.css")
+                    # module-level entry point: default fetcher -> urllib.request.urlopen (simulated)
+                    net.install_urlopen()
+                    try:
+                        obj = cu.parseString(data, href="http://h/root.css")
+                    finally:
+                        net.uninstall_urlopen()
                 else:
                     obj = parser.parseString(data, href="http://h/root.css")
                 want = cu.css.CSSStyleDeclaration if entry == "style" else cu.css.CSSStyleSheet
@@ -141,7 +146,7 @@ class World:
         except RecursionError as e:
             raise Viol("never_raises", f"{stage.split('(')[0]}:RecursionError@{lib.innermost_repo_function(e, env.REPO)}", f"{stage} raised RecursionError; root={root[:300]!r}")
         except Exception as e:
-            raise Viol("never_raises", f"{stage.split('(')[0]}:{lib.ename(e)}@{lib.innermost_repo_function(e, env.REPO)}", f"{stage} raised {e!r}; entry={entry} options={opts} root={root[:400]!r} docs={ {k: (v.get('text') or v.get('raw_hex'))[:80] for k, v in docs.items()} }")
+            raise Viol("never_raises", f"{stage.split('(')[0]}:{lib.ename(e)}@{lib.innermost_repo_function(e, env.REPO)}", f"{stage} raised {e!r}; entry={entry} options={opts} root={root[:400]!r} docs={ {k: str(v.get('text') or v.get('raw_hex'))[:80] for k, v in docs.items()} }")
         finally:
             cu.log.raiseExceptions = True
         self.stats["oracle"] += 4
